@@ -61,6 +61,31 @@ CLAIMS = {
          "hook and by whole networks over the fabric (tick jitter overridden to 0, peers going down / coming back) whose per-tick dial trace is compared with Dialer.check "
          "driven by the same availability timeline.",
          "timer accuracy, dial failure by connect_timeout and close notification are the runtime's/quinn's."),
+ "C09": ("Coq theorems about a network-level model (NetModel.v, big steps run to quiescence): after a quiet period longer than the idle timeout A lists B iff B lists A and every "
+         "listed link is uncut; an explicit disconnect removes the peer locally at once with LostPeer(Requested) and, the link permitting, at the other side; a successful dial "
+         "lists both ends; tied by sequential scripts (dials, disconnects, restarts, partitions, healing, quiet periods) on whole networks over the fabric whose dial results, "
+         "listings at quiet points and pairwise RPC reachability are compared with the model / checked by monitors. Partial: the transport hypothesis (close propagation, idle "
+         "timeout, keep-alive) is quinn's.",
+         "quinn close/idle semantics are assumed (modelled as the Quiesce/Disconnect steps)."),
+ "C10": ("Coq theorems: the admission rule (Never -> reject; High/Allowed -> always; others iff no limit or count < limit), the dialer's own limit is never consulted, the count "
+         "covers connections of either origin and a disconnect frees one slot, a rejected dialer gets an error and nothing is registered; tied by sequential fabric scripts with "
+         "random limits and known-peer tables mutated at run time, every dial result compared with NetModel.v.",
+         "simultaneous arrivals are excluded (documented as approximate)."),
+ "C03": ("Coq theorems: a pinned dial returns only the pinned identity and it is the party at the address, a wrong answering party leaves no trace, any successful dial returns "
+         "the reached party which is listed when the call returns; at handshake level the attributed identity is the pin and an answering party lacking the pinned key is rejected "
+         "(under the explicit unforgeability hypothesis); tied by fabric scripts where most dials are pinned (rightly or wrongly) and by an adversary endpoint replaying the "
+         "expected certificate. Partial: cryptography is symbolic.",
+         "Ed25519/TLS 1.3/X.509 soundness assumed."),
+ "C14": ("Coq theorems: a dial succeeds only if the dialer's primary name is the listener's primary or alternate name, disjoint configurations never connect, an adversarial "
+         "dialer is rejected unless both its claimed name and its certificate name are accepted; tied by fabric scripts over random (primary, alternate) configurations and by an "
+         "adversary choosing SNI and certificate name independently (all 126 combinations in the thorough tier).",
+         "rustls SNI resolution and webpki name matching are trusted."),
+ "C01": ("Coq theorems on a symbolic model of the verifiers (self as trust anchor, Ed25519 only, validity, usage, names, pin first, handshake signature under the same "
+         "certificate's key, client auth mandatory): an attributed identity is always a key the remote proved (explicit unforgeability hypotheses), replayed / re-signed / "
+         "non-Ed25519 / expired / malformed / wrong-name certificates are rejected, the identity is a function of the verified certificate only; tied by differential runs of "
+         "the real verifiers on thousands of concrete certificates, every single-byte mutation of valid ones, and by adversary endpoints on the fabric. Partial: cryptography "
+         "is assumed, not proved.",
+         "ring / rustls / webpki / x509-parser soundness assumed."),
 }
 
 def main():
